@@ -1,6 +1,9 @@
 import Marwood.Lemmas.EnvNest
 import Marwood.Lemmas.EnvRuntime
 import Marwood.Lemmas.EnvOneLevel
+import Marwood.Lemmas.EnvRefineBinder
+import Marwood.Lemmas.EnvRefineReach
+import Marwood.Lemmas.EnvRefineSpec
 /-!
 # C02 — lexical scoping: innermost binding wins, closures share mutable locations
 
@@ -265,5 +268,277 @@ example :
         pure (c1, c2, a2, t1, t2, match v with | .val n => n | _ => 0)) =
       (.ok (1, 2, 3, (0, 0), (0, 0), 42) : Except Fault _) := by
   rfl
+
+/-! ## T02.4: the model evaluator refines the specification interpreter
+
+`Vm.EnvRun` resolves variables only through the compiler model's environment maps, the CLOSURE / ENTER
+environments and slot pointers; `Spec.Scope` through the scope chain and a location store. The
+theorems below relate them for EVERY program of the scope-skeleton language (any nesting depth, any
+names, rest parameters, internal definitions plain and sugared, `begin`, loops, `each`).
+
+The simulation relation (`Lemmas/EnvRefineRel.lean`): a partial injection `β` from specification
+locations to value slots `(env, slot)`; every frame of a scope chain is the image, index by index, of
+the ONE environment ENTER created together with it (`ChainOK`); a model closure's captured entries
+are pointers to the `β`-images of the locations its specification twin's chain resolves the names
+to (`CloFacts`); stored values, logged values and globals are related pointwise.
+
+Fuel: a `begin` costs the model two levels of fuel (it is the call of a parameterless lambda), so
+specification fuel `f` is matched by any model fuel `g ≥ 2 f`.
+
+What is excluded (`faulty`): sessions in which some form of the SPECIFICATION run ends with `unbound`
+(a read of a location before its initialisation, or a reference / assignment to an undefined
+global) or with `fuel`. On the first two the model — and the real VM — genuinely behave differently
+(`refinement_fails_uninitialised`, `refinement_fails_assign_undefined`). -/
+
+open Marwood.Vm.EnvRefine
+
+/-- **T02.4, the full statement**: what an observer sees of the two runs from the empty state — the
+    printed outcome of every top-level form and the printed read / write log — is the same. -/
+def Refines (f g : Nat) (p : Program) : Prop :=
+  (Vm.EnvRun.run g p {}).1.map obsResM = (Spec.Scope.run f p {}).1.map obsResS ∧
+  (Vm.EnvRun.run g p {}).2.log.map (fun q => (q.1, obsM q.2)) =
+    (Spec.Scope.run f p {}).2.log.map (fun ev => (ev.site, obsS ev.val))
+
+/-- **T02.4 with the simulation relation explicit.** The final states are related by some `β`
+    (`StRel`: every mapped location is a live store cell whose slot exists, holds no pointer and holds
+    a related value; `β` injective; globals, counter and log related; one level of indirection), and
+    the outcomes are related form by form. -/
+theorem refinement_relation_partial (f g : Nat) (hg : 2 * f ≤ g) (p : Program)
+    (hok : (Spec.Scope.run f p {}).1.any faulty = false) :
+    ∃ β, StRel β (Spec.Scope.run f p {}).2 (Vm.EnvRun.run g p {}).2 ∧
+      Forall2 (ResRel β (Vm.EnvRun.run g p {}).2.envs) (Spec.Scope.run f p {}).1 (Vm.EnvRun.run g p {}).1 := by
+  obtain ⟨β, _, r, hres⟩ := sim_run f g hg p _ _ _ StRel.init hok
+  exact ⟨β, r, hres⟩
+
+/-- **T02.4.** For every program, every specification fuel `f` and every model fuel `g ≥ 2 f`: unless
+    the specification run hits `unbound` or runs out of fuel, the model evaluator yields the same
+    outcomes and the same read / write log as the scope-chain interpreter. -/
+theorem refinement_partial (f g : Nat) (hg : 2 * f ≤ g) (p : Program)
+    (hok : (Spec.Scope.run f p {}).1.any faulty = false) : Refines f g p := by
+  obtain ⟨β, r, hres⟩ := refinement_relation_partial f g hg p hok
+  refine ⟨hres.map_eq fun a b h => h.obs, ?_⟩
+  exact Forall2.map_eq r.log fun ev q h => by
+    obtain ⟨h1, h2⟩ := h
+    simp [h1, h2.obs]
+
+/-- **T02.2, second half** (the environment a `LexicalEnvPtr` leads to is the activation environment
+    of the binder). In an activation related to the chain `ρ` — the relation `sim_enter` establishes
+    at every ENTER and `sims` carries through every evaluation step — the operand compiled for `x`
+    denotes slot `i` of environment `e`, where `e = acts[j]` is the environment ENTER created for the
+    activation whose frame `ρ[j]` is the one `resolve` stops at, and `i` is the position of the binding
+    in that frame. -/
+theorem pointer_leads_to_binder_activation {β : LocMap} {h : Envs MVal} {N ctx ep ρ acts}
+    (a : ActRel β h N ctx ep ρ acts) (x : Name) (s : Nat) (hs : slotOf ctx.envmap x = some s) :
+    ∃ (ae j : Nat) (fr : Frame) (i : Nat) (l : Loc) (e : Nat), ep = some ae ∧ resolveLevel x ρ = some j ∧
+      ρ[j]? = some fr ∧ fr[i]? = some (x, l) ∧ fr.find? x = some l ∧ acts[j]? = some e ∧
+      target h ae s = .ok (e, i) :=
+  a.binder_activation x s hs
+
+/-- the same for the pointers stored in a closure environment -/
+theorem closure_pointer_leads_to_binder_activation {β : LocMap} {h : Envs MVal} {fvs octx ctx cenv ρ acts carr}
+    (c : CloFacts β h fvs octx ctx cenv ρ acts carr) (s : Nat) (x : Name) (k : Nat)
+    (he : ctx.envmap[s]? = some (x, Source.iofEnv k)) :
+    ∃ (j : Nat) (fr : Frame) (i : Nat) (l : Loc) (e : Nat), resolveLevel x ρ = some j ∧ ρ[j]? = some fr ∧
+      fr[i]? = some (x, l) ∧ fr.find? x = some l ∧ acts[j]? = some e ∧ carr[s]? = some (Slot.ptr e i) :=
+  c.binder_activation s x k he
+
+/-- ENTER establishes the relation: the new activation environment is the image of the new frame
+    (`bindParams` + `allocDefs`), slot by slot, and the activation is related to the extended chain -/
+theorem enter_establishes_relation {β : LocMap} {s : SSt} {t : MSt} {octx cenv ρ acts carr} (r : StRel β s t)
+    (sugar : Bool) (ps : List Name) (rst : Option Name) (ds : Defs) (body : Exprs)
+    (c : CloFacts β t.envs (fvLam sugar ps rst ds body) octx (compileLam octx sugar ps rst ds body) cenv ρ acts carr)
+    (vals : List SVal) (margs : List MVal) (hrel : Forall2 (VRel β t.envs) vals margs)
+    (hm : margs.length = (ps ++ rst.toList).length) :
+    ∃ (arr : Array (Slot MVal)) (β' : LocMap),
+      buildLexicalEnvironment t.envs cenv margs (compileLam octx sugar ps rst ds body).envmap =
+        .ok ((t.envs.push arr).1, t.envs.envs.size) ∧
+      Ext β t.envs β' (t.envs.push arr).1 ∧
+      StRel β' { s with store := s.store ++ vals.toArray ++ (ds.names.map fun _ => Spec.Scope.Val.undef).toArray }
+        { t with envs := (t.envs.push arr).1 } ∧
+      ActRel β' (t.envs.push arr).1 (needOf sugar ps rst ds body) (compileLam octx sugar ps rst ds body)
+        (some t.envs.envs.size)
+        ((frameAt (ps ++ rst.toList) s.store.size ++ frameAt ds.names (s.store.size + vals.length)) :: ρ)
+        (t.envs.envs.size :: acts) :=
+  sim_enter r sugar ps rst ds body c vals margs hrel hm
+
+/-! ### the excluded sessions are genuinely different -/
+
+/-- `((lambda () (define v5 (rd 1 v5)) (rd 2 v5)))`: an internal definition read before its
+    initialisation -/
+def uninitialisedRead : Program :=
+  [.expr (.call (.lam [] none (.cons 5 false (.ref 1 5) .nil) (.cons (.ref 2 5) .nil)) .nil)]
+
+/-- `(set! v7 (wr 1 (tick)))  (rd 2 v7)`: assignment to a global that was never defined -/
+def assignUndefined : Program := [.expr (.set 1 7 .fresh), .expr (.ref 2 7)]
+
+/-- the specification reports `unbound`; the model (like the real VM: `#<undefined>`, no error)
+    reads the uninitialised slot -/
+theorem refinement_fails_uninitialised : ¬ Refines 5 10 uninitialisedRead := by
+  intro h
+  exact absurd h.1 (by decide)
+
+/-- the specification reports `unbound` twice; the model (like the real VM) lets `set!` define the
+    global and then reads it -/
+theorem refinement_fails_assign_undefined : ¬ Refines 5 10 assignUndefined := by
+  intro h
+  exact absurd h.1 (by decide)
+
+example : (Spec.Scope.run 5 uninitialisedRead {}).1.any faulty = true := by decide
+example : (Spec.Scope.run 5 assignUndefined {}).1.any faulty = true := by decide
+
+/-! ### the hypotheses are satisfiable: depth 3, shadowing, a shared counter, two activations
+
+```
+(define mk (lambda (a)                                   ; a: the counter of this activation
+  (define inc (lambda () (set! a (wr 1 (tick))) (rd 2 a)))              ; closure 1 over a
+  (define get (lambda (b) (lambda (a) (rd 3 a) (rd 4 b))))              ; depth 3; the inner a shadows
+  (lambda (c) ((rd 6 inc)) (rd 5 a) (((rd 7 get) (tick)) (tick)))))      ; closure 2 over a
+(define k1 ((rd 8 mk) (tick)))   (define k2 ((rd 8 mk) (tick)))
+((rd 9 k1) (tick))   ((rd 9 k2) (tick))   ((rd 9 k1) (tick))
+``` -/
+def demo : Program :=
+  [ .define 10 (.lam [0] none
+      (.cons 3 false (.lam [] none .nil (.cons (.set 1 0 .fresh) (.cons (.ref 2 0) .nil)))
+        (.cons 4 false (.lam [1] none .nil (.cons (.lam [0] none .nil (.cons (.ref 3 0) (.cons (.ref 4 1) .nil))) .nil))
+          .nil))
+      (.cons (.lam [2] none .nil
+        (.cons (.call (.ref 6 3) .nil) (.cons (.ref 5 0)
+          (.cons (.call (.call (.ref 7 4) (.cons .fresh .nil)) (.cons .fresh .nil)) .nil)))) .nil)),
+    .define 11 (.call (.ref 8 10) (.cons .fresh .nil)),
+    .define 12 (.call (.ref 8 10) (.cons .fresh .nil)),
+    .expr (.call (.ref 9 11) (.cons .fresh .nil)),
+    .expr (.call (.ref 9 12) (.cons .fresh .nil)),
+    .expr (.call (.ref 9 11) (.cons .fresh .nil)) ]
+
+theorem demo_not_faulty : (Spec.Scope.run 12 demo {}).1.any faulty = false := by decide +kernel
+
+example : Refines 12 24 demo := refinement_partial 12 24 (by omega) demo demo_not_faulty
+
+/-- what the specification run of `demo` logs, with locations: sites 1, 2 (closure `inc`) and 5
+    (closure 2) hit ONE location per activation of `mk` (1 for `k1`, 5 for `k2`), the value written
+    through `inc` is read through the other closure and survives until the next call of `k1`
+    (4, then 12), and site 3 reads the innermost `a` (locations 11, 14, 17), never the counter -/
+example : (Spec.Scope.run 12 demo {}).2.log.reverse.map (fun ev => (ev.site, ev.loc, obsS ev.val)) =
+    [(8, 0, .proc), (8, 0, .proc),
+     (9, 4, .proc), (6, 2, .proc), (1, 1, .int 4), (2, 1, .int 4), (5, 1, .int 4), (7, 3, .proc), (3, 11, .int 5), (4, 10, .int 6),
+     (9, 8, .proc), (6, 6, .proc), (1, 5, .int 8), (2, 5, .int 8), (5, 5, .int 8), (7, 7, .proc), (3, 14, .int 9), (4, 13, .int 10),
+     (9, 4, .proc), (6, 2, .proc), (1, 1, .int 12), (2, 1, .int 12), (5, 1, .int 12), (7, 3, .proc), (3, 17, .int 13), (4, 16, .int 14)] := by
+  decide +kernel
+
+/-- and the model evaluator, which knows no names at run time, logs the same sites and values -/
+example : (Vm.EnvRun.run 24 demo {}).2.log.reverse.map (fun q => (q.1, obsM q.2)) =
+    [(8, .proc), (8, .proc),
+     (9, .proc), (6, .proc), (1, .int 4), (2, .int 4), (5, .int 4), (7, .proc), (3, .int 5), (4, .int 6),
+     (9, .proc), (6, .proc), (1, .int 8), (2, .int 8), (5, .int 8), (7, .proc), (3, .int 9), (4, .int 10),
+     (9, .proc), (6, .proc), (1, .int 12), (2, .int 12), (5, .int 12), (7, .proc), (3, .int 13), (4, .int 14)] := by
+  decide +kernel
+
+/-! ### T02.2, first half, in every reachable state (no hypothesis on the program) -/
+
+/-- Every state a session of the model evaluator reaches from the empty state — any program, any
+    fuel, whatever errors occur on the way — has one level of indirection: every `LexicalEnvPtr`
+    points at a slot that holds a value. (The evaluator changes environments only through
+    `buildClosureEnvironment`, `buildLexicalEnvironment` and `store`; `one_level_invariant` says these
+    keep the invariant; `keepsAll` is the induction over the evaluator.) -/
+theorem reachable_one_level (g : Nat) (p : Program) : OneLevel (Vm.EnvRun.run g p {}).2.envs :=
+  (run_keeps g p {} OneLevel.empty).1
+
+/-- …and between any two points of a session no environment is removed, no pointer slot changes and
+    no value slot becomes a pointer -/
+theorem session_evolves (g : Nat) (p q : Program) :
+    Evolves (Vm.EnvRun.run g p {}).2.envs (Vm.EnvRun.run g q (Vm.EnvRun.run g p {}).2).2.envs :=
+  (run_keeps g q _ (reachable_one_level g p)).2
+
+/-! ### the four clauses of the property, on the specification interpreter
+
+`refinement_partial` makes them statements about what the model evaluator computes. -/
+
+/-- **Closures share one mutable location per activation**, part 1: a closure carries the chain of
+    the activation that created it (so all closures created in one activation carry the same chain) -/
+theorem spec_closure_carries_chain (f : Nat) (ρ : Chain) (ps : List Name) (r : Option Name) (ds : Defs)
+    (body : Exprs) (s : SSt) :
+    exec (Spec.Scope.eval (f + 1) ρ (.lam ps r ds body)) s = (.ok (.clo ps r ds body ρ), s) := rfl
+
+/-- part 2: an application evaluates the body in the closure's chain extended by ONE new frame -/
+theorem spec_apply_extends_chain (f : Nat) (ps : List Name) (r : Option Name) (ds : Defs) (body : Exprs)
+    (env : Chain) (vs : List SVal) :
+    Spec.Scope.apply (f + 1) (.clo ps r ds body env) vs = (do
+      let fr ← bindParams ps r vs
+      let fr' ← allocDefs ds
+      Spec.Scope.evalDefs f ((fr ++ fr') :: env) ds
+      Spec.Scope.evalBody f ((fr ++ fr') :: env) body) := rfl
+
+/-- part 3: whatever frames two such applications push, a name neither of them rebinds denotes the
+    same location in both — the one the shared chain resolves it to -/
+theorem spec_closures_share_location (x : Name) (fr1 fr2 : Frame) (ρ : Chain)
+    (h1 : fr1.find? x = none) (h2 : fr2.find? x = none) :
+    resolve x (fr1 :: ρ) = resolve x ρ ∧ resolve x (fr2 :: ρ) = resolve x ρ :=
+  ⟨resolve_skip x fr1 ρ h1, resolve_skip x fr2 ρ h2⟩
+
+/-- **Separate activations get separate locations**: the frame of a new activation consists of the
+    next free locations of the store (none of them handed out before) … -/
+theorem spec_activation_gets_fresh_locations (ps : List Name) (r : Option Name) (ds : Defs) (vs vals : List SVal)
+    (s : SSt) (hp : paramVals ps r vs = some vals) :
+    exec (bindParams ps r vs >>= fun fr => allocDefs ds >>= fun fr' => pure (fr ++ fr')) s =
+      (.ok (frameAt (ps ++ r.toList) s.store.size ++ frameAt ds.names (s.store.size + vals.length)),
+       { s with store := s.store ++ vals.toArray ++ (ds.names.map fun _ => Spec.Scope.Val.undef).toArray }) ∧
+    ∀ (i : Nat) (q : Name × Loc),
+      (frameAt (ps ++ r.toList) s.store.size ++ frameAt ds.names (s.store.size + vals.length))[i]? = some q →
+      q.2 = s.store.size + i := by
+  have hb := exec_bindParams ps r vs s
+  rw [hp] at hb
+  simp only at hb
+  have hvl := paramVals_length ps r vs vals hp
+  refine ⟨?_, ?_⟩
+  · rw [exec_bind_ok _ _ _ _ _ hb, exec_bind_ok _ _ _ _ _ (exec_allocDefs ds _)]
+    simp [exec_pure]
+  intro i q hq
+  rw [hvl, ← frameAt_append, frameAt_getElem] at hq
+  exact hq.2
+
+/-- … and (**bindings outlive their creator**) no step of the interpreter ever shortens the store:
+    a location, once allocated, stays allocated for the rest of the session, whether or not the
+    activation that created it has returned; so the next activation's locations lie beyond it. -/
+theorem spec_store_never_shrinks (f : Nat) (ρ : Chain) (e : Expr) (s : SSt) :
+    s.store.size ≤ (exec (Spec.Scope.eval f ρ e) s).2.store.size :=
+  (growsAll f).eval ρ e s
+
+theorem spec_apply_never_shrinks (f : Nat) (fv : SVal) (vs : List SVal) (s : SSt) :
+    s.store.size ≤ (exec (Spec.Scope.apply f fv vs) s).2.store.size :=
+  (growsAll f).apply fv vs s
+
+/-- **C02 in one statement.** For every program of the scope-skeleton language, what the model
+    evaluator computes through environment maps, closure / activation environments and slot
+    pointers is what the scope-chain interpreter computes (same outcomes, same read / write log) —
+    and in that interpreter the innermost binding wins, all closures created in one activation share
+    one mutable location per captured name with that activation, separate activations get separate
+    locations, and a binding outlives the procedure activation that created it. -/
+theorem lexical_scoping_partial (f g : Nat) (hg : 2 * f ≤ g) (p : Program)
+    (hok : (Spec.Scope.run f p {}).1.any faulty = false) :
+    Refines f g p ∧
+    -- the innermost binding wins
+    (∀ (x : Name) (fr : Frame) (ρ : Chain) (l : Loc), fr.find? x = some l → resolve x (fr :: ρ) = some l) ∧
+    (∀ (x : Name) (fr : Frame) (ρ : Chain), fr.find? x = none → resolve x (fr :: ρ) = resolve x ρ) ∧
+    -- closures created in one activation share one location per captured name with that activation
+    (∀ (f : Nat) (ρ : Chain) (ps : List Name) (r : Option Name) (ds : Defs) (body : Exprs) (s : SSt),
+      exec (Spec.Scope.eval (f + 1) ρ (.lam ps r ds body)) s = (.ok (.clo ps r ds body ρ), s)) ∧
+    (∀ (x : Name) (fr1 fr2 : Frame) (ρ : Chain), fr1.find? x = none → fr2.find? x = none →
+      resolve x (fr1 :: ρ) = resolve x (fr2 :: ρ)) ∧
+    -- separate activations get separate locations: an activation's frame is made of the next free ones
+    (∀ (ps : List Name) (r : Option Name) (ds : Defs) (vs vals : List SVal) (s : SSt),
+      paramVals ps r vs = some vals → ∀ (i : Nat) (q : Name × Loc),
+      (frameAt (ps ++ r.toList) s.store.size ++ frameAt ds.names (s.store.size + vals.length))[i]? = some q →
+      q.2 = s.store.size + i) ∧
+    -- a binding outlives its creator: no location is ever released
+    (∀ (f : Nat) (fv : SVal) (vs : List SVal) (s : SSt),
+      s.store.size ≤ (exec (Spec.Scope.apply f fv vs) s).2.store.size) :=
+  ⟨refinement_partial f g hg p hok,
+   resolve_innermost, resolve_skip,
+   spec_closure_carries_chain,
+   fun x fr1 fr2 ρ h1 h2 => (resolve_skip x fr1 ρ h1).trans (resolve_skip x fr2 ρ h2).symm,
+   fun ps r ds vs vals s hp => (spec_activation_gets_fresh_locations ps r ds vs vals s hp).2,
+   spec_apply_never_shrinks⟩
+
+example : Refines 12 24 demo := (lexical_scoping_partial 12 24 (by omega) demo demo_not_faulty).1
 
 end Marwood.Proofs.C02
